@@ -69,6 +69,40 @@ type faultDS struct {
 	opened   atomic.Int64
 	stopped  atomic.Int64
 	maxLenAt int // length of the iterator in which the trigger fired
+	// open faults: the n-th iterator open after armOpen fails with errInjected
+	slowNs     atomic.Int64 // > 0: every Next sleeps that long first (a slow datastore)
+	openArmed  bool
+	openCount  int
+	failOpenAt int
+	openFired  bool
+}
+
+func (f *faultDS) armOpen(at int) {
+	f.mu.Lock()
+	defer f.mu.Unlock()
+	f.openArmed, f.openCount, f.failOpenAt, f.openFired = true, 0, at, false
+}
+
+func (f *faultDS) disarmOpen() bool {
+	f.mu.Lock()
+	defer f.mu.Unlock()
+	f.openArmed = false
+	return f.openFired
+}
+
+// preOpen is called before every iterator open; a non-nil error is returned to the caller instead of an iterator.
+func (f *faultDS) preOpen() error {
+	f.mu.Lock()
+	defer f.mu.Unlock()
+	if !f.openArmed || f.openFired {
+		return nil
+	}
+	f.openCount++
+	if f.openCount < f.failOpenAt {
+		return nil
+	}
+	f.openFired = true
+	return errInjected
 }
 
 var errInjected = errors.New("verif: injected datastore read failure")
@@ -115,6 +149,12 @@ type faultIter struct {
 }
 
 func (it *faultIter) Next(ctx context.Context) (*openfgav1.Tuple, error) {
+	if d := it.ds.slowNs.Load(); d > 0 {
+		time.Sleep(time.Duration(d))
+		if err := ctx.Err(); err != nil {
+			return nil, err
+		}
+	}
 	if err := it.ds.onNext(); err != nil {
 		return nil, err
 	}
@@ -135,12 +175,21 @@ func (f *faultDS) wrap(it storage.TupleIterator, err error) (storage.TupleIterat
 }
 
 func (f *faultDS) Read(ctx context.Context, store string, filter storage.ReadFilter, o storage.ReadOptions) (storage.TupleIterator, error) {
+	if err := f.preOpen(); err != nil {
+		return nil, err
+	}
 	return f.wrap(f.OpenFGADatastore.Read(ctx, store, filter, o))
 }
 func (f *faultDS) ReadUsersetTuples(ctx context.Context, store string, filter storage.ReadUsersetTuplesFilter, o storage.ReadUsersetTuplesOptions) (storage.TupleIterator, error) {
+	if err := f.preOpen(); err != nil {
+		return nil, err
+	}
 	return f.wrap(f.OpenFGADatastore.ReadUsersetTuples(ctx, store, filter, o))
 }
 func (f *faultDS) ReadStartingWithUser(ctx context.Context, store string, filter storage.ReadStartingWithUserFilter, o storage.ReadStartingWithUserOptions) (storage.TupleIterator, error) {
+	if err := f.preOpen(); err != nil {
+		return nil, err
+	}
 	return f.wrap(f.OpenFGADatastore.ReadStartingWithUser(ctx, store, filter, o))
 }
 
@@ -206,6 +255,10 @@ type QOp struct {
 	Tuples []m.Tuple     `json:"tuples,omitempty"` // write / delete
 	At     int           `json:"at,omitempty"`     // fault trigger: n-th datastore Next (0 = none)
 	Fail   bool          `json:"fail,omitempty"`   // trigger also returns a read error (else only cancels the request)
+	// DeadlineUs > 0 (with Burst > 1): copy 0 of the burst runs under a real deadline that far away while every
+	// datastore Next takes SlowUs; the other copies are clean requests sharing its reads.
+	DeadlineUs int `json:"deadline_us,omitempty"`
+	SlowUs     int `json:"slow_us,omitempty"`
 }
 
 func consistency(hc bool) openfgav1.ConsistencyPreference {
